@@ -14,11 +14,29 @@ import (
 // returning one datum per unit, 2 replacer returning nothing for odd units) and, when skip is not nil, a
 // PacketSkipper. It returns the delivered data and the units the parser was handed, both in canonical form.
 func c19RunSkipParser(b []byte, skip func(call int) bool, mode int) (data, units []string, prob string) {
+	data, units, prob, _ = c19RunSkipParserU(b, skip, mode)
+	return
+}
+
+func c19RunSkipParserU(b []byte, skip func(call int) bool, mode int) (data, units []string, prob, badUnit string) {
 	calls, pcalls := 0, 0
 	parser := func(ps []*astits.Packet) ([]*astits.DemuxerData, bool, error) {
 		units = append(units, mc.Canon(ps))
 		call := pcalls
 		pcalls++
+		// whatever the stream (here: every deletion pattern, so counter gaps sit before, inside and after every
+		// unit), a unit is non-empty and of a single PID
+		if len(ps) == 0 {
+			if badUnit == "" {
+				badUnit = fmt.Sprintf("parser call %d was handed an empty unit", call)
+			}
+			return nil, false, nil
+		}
+		for _, p := range ps {
+			if p.Header.PID != ps[0].Header.PID && badUnit == "" {
+				badUnit = fmt.Sprintf("parser call %d was handed packets of PIDs %#x and %#x in one unit", call, ps[0].Header.PID, p.Header.PID)
+			}
+		}
 		switch mode {
 		case 1:
 			return []*astits.DemuxerData{{PID: ps[0].Header.PID, PES: &astits.PESData{Data: []byte{byte(call)}}}}, true, nil
@@ -41,12 +59,12 @@ func c19RunSkipParser(b []byte, skip func(call int) bool, mode int) (data, units
 	d := astits.NewDemuxer(context.Background(), bytes.NewReader(b), opts...)
 	o := DrainData(d, len(b))
 	if o.Panic != nil || !o.EOF || len(o.Errs) > 0 {
-		return nil, units, fmt.Sprintf("panic=%v eof=%v errs=%v", o.Panic, o.EOF, errStrings(o.Errs))
+		return nil, units, fmt.Sprintf("panic=%v eof=%v errs=%v", o.Panic, o.EOF, errStrings(o.Errs)), badUnit
 	}
 	for _, x := range o.Data {
 		data = append(data, mc.Canon(x))
 	}
-	return data, units, ""
+	return data, units, "", badUnit
 }
 
 // c19Product: the two options together. For every skip vector and every parser mode, the Demuxer with both
@@ -62,7 +80,7 @@ func c19Product(c *mc.Ctx, st *Stream, maxN int) {
 	for mode := 0; mode < 3; mode++ {
 		mode := mode
 		done := mc.ParFor(total, c.OverBudget, func(mask int64) {
-			got, gu, prob := c19RunSkipParser(st.Bytes, func(call int) bool { return mask>>uint(call)&1 == 1 }, mode)
+			got, gu, prob, badUnit := c19RunSkipParserU(st.Bytes, func(call int) bool { return mask>>uint(call)&1 == 1 }, mode)
 			var fb []byte
 			for i := 0; i < n; i++ {
 				if mask>>uint(i)&1 == 0 {
@@ -72,6 +90,9 @@ func c19Product(c *mc.Ctx, st *Stream, maxN int) {
 			want, wu, p2 := c19RunSkipParser(fb, nil, mode)
 			det := map[string]any{"kind": "stream", "stream": st.Name, "api": "data", "skip_mask": mask, "parser_mode": mode, "bytes": mc.Hex(st.Bytes)}
 			rep := func(sig, msg string) { det["message"] = msg; c.Rep.Report(sig, det) }
+			if badUnit != "" {
+				rep("parser-argument", badUnit)
+			}
 			switch {
 			case prob != "" || p2 != "":
 				if prob != p2 {
